@@ -31,12 +31,15 @@
 (*            the DENY list are defined HERE.  TLC enumerates Kind^arity   *)
 (*            (exhaustively over the kinds of tier <= T1 / T2 / T3, plus   *)
 (*            seed-determined samples over all kinds, plus one call with   *)
-(*            one argument too few / too many).  The "canary" cfg is the   *)
-(*            same machine with small tier sets; the driver uses it to     *)
-(*            set the crash budget (`cap`) of the full run.  Oracle: the call is       *)
-(*            `noncrash` (returns a value or an error VALUE within the     *)
-(*            time limit), and Probe(G) evaluated afterwards on the same   *)
-(*            engine gives the values computed here from G.                *)
+(*            one argument too few / too many, plus the "hof" family: a    *)
+(*            procedure of right / wrong arity, raising, escaping through  *)
+(*            a continuation, in every argument position).  The "canary"   *)
+(*            cfg is the same machine with small tier sets; the driver     *)
+(*            uses it to set the crash budget (`cap`) of the full run.     *)
+(*            Oracle: the call is `noncrash` (returns a value or an error  *)
+(*            VALUE within the time limit), and Probe(G) evaluated         *)
+(*            afterwards on the same engine gives the values computed      *)
+(*            here from G.                                                 *)
 (*  "stages"  error STAGE x CONTEXT x HANDLING: a failing expression of    *)
 (*            every stage (parse, expand, compile, 10 run-time kinds) is   *)
 (*            placed in every evaluation context (top level, function at   *)
@@ -44,7 +47,9 @@
 (*            (transduce, stream thunk, apply, call-with-values, force),   *)
 (*            handler, wind thunks, parameterize, spawned thread, eval).   *)
 (*            The expected emitted sequence, outcome class and post-state  *)
-(*            are COMPUTED by `RunCtx` below.                              *)
+(*            are COMPUTED by `RunCtx` below.  Plus "reenter": a           *)
+(*            continuation captured by an earlier unit is invoked by a     *)
+(*            later one, with a failing unit in between.                   *)
 (*  "inter"   histories: random interleavings (TLC -simulate) of failing    *)
 (*            and succeeding units, assignments and redefinitions on one   *)
 (*            engine; G is threaded through, every unit is followed by     *)
@@ -53,7 +58,9 @@
 (*            deep non-tail recursion (10^3..10^7, direct and through      *)
 (*            callbacks): `noncrash`; when the unit returns, its value is  *)
 (*            the one computed here.  The text is described as             *)
-(*            open^D mid close^D; the driver only performs the repetition. *)
+(*            pre A^D mid B^D post; the driver only performs the           *)
+(*            repetition.  Plus "many units": 40 000 successful units on   *)
+(*            one engine.                                                  *)
 (*                                                                         *)
 (* Arbitrary TEXT over a small alphabet is Datum.tla's Strings generator   *)
 (* (checks/c12.py, class noncrash); the Globals half ("a failed build      *)
@@ -67,7 +74,7 @@
 (*           (Globals.tla D1); the probe only relies on these two.         *)
 (*  D-JOIN   `thread-join!` re-raises the thread's error in the joining    *)
 (*           thread (threads.rs thread_join: `stop!(Generic => ...)`).     *)
-(*  D-HUGE   a call that has an argument of magnitude "h" (>= 2^31), and a  *)
+(*  D-HUGE   a call that has an argument of magnitude "h" (>= 2^31), and a *)
 (*           program of depth >= 10^5, may exceed the time limit or the    *)
 (*           memory limit of the replayer (`(range 0 (expt 2 62))` is a    *)
 (*           legitimate way to loop): such a timeout / failed allocation   *)
